@@ -1279,7 +1279,7 @@ where
                 Token::Tag(
                     tag!(<caption> | <col> | <colgroup> | <tbody> | <tfoot> | <thead> | </table>),
                 ) => {
-                    declare_tag_set!(table_outer = "table" "tbody" "tfoot");
+                    declare_tag_set!(table_outer = "tbody" "thead" "tfoot");
                     if self.in_scope(table_scope, |e| self.elem_in(&e, table_outer)) {
                         self.pop_until_current(table_body_context);
                         self.pop();
